@@ -2,6 +2,7 @@ import OtelVerif.Model.Propagator
 import OtelVerif.Lemmas.Idx
 import OtelVerif.Lemmas.KvTokIdx
 import OtelVerif.Props.C09
+import OtelVerif.Props.C16
 /-! # C15 — Baggage round-trips through its header; composite propagators apply every part
 
 Property theorems about `Model/Baggage.lean` (mirrors `baggage/baggage.h` over `common/kv_properties.h`) and
@@ -1021,6 +1022,49 @@ theorem composite_append {Ctx Car : Type} (empty : Ctx) (ps qs : List (Propagato
     (composite empty (ps ++ qs)).inject car ctx = (composite empty qs).inject ((composite empty ps).inject car ctx) ctx ∧
     (composite empty (ps ++ qs)).extract car ctx = (composite empty qs).extract car ((composite empty ps).extract car ctx) := by
   simp only [composite_inject_eq_foldl, composite_extract_eq_foldl, List.foldl_append, and_self]
+
+/-! ### the composite of built-in propagators never faults -/
+
+/-- the five built-in propagators -/
+def Builtin (p : Propagator RCtx Carrier) : Prop :=
+  p = w3c ∨ p = b3Single ∨ p = b3Multi ∨ p = jaeger ∨ p = Propagation.baggage
+
+theorem withSpan_ok (ctx : PCtx) (f : PCtx → IxRes (Option TraceContext.SpanCtx)) (o : Option TraceContext.SpanCtx)
+    (h : f ctx = .ok o) : ∃ ctx', withSpan (.ok ctx) f = .ok ctx' ∧ ctx'.baggage = ctx.baggage := by
+  unfold withSpan
+  rw [IxRes.bind_ok, h, IxRes.bind_ok]
+  cases o with
+  | none => exact ⟨ctx, rfl, rfl⟩
+  | some sc => exact ⟨_, rfl, rfl⟩
+
+/-- every built-in extractor, on every carrier and context, returns a context (no fault token) -/
+theorem builtin_extract_ok (p : Propagator RCtx Carrier) (hp : Builtin p) (car : Carrier) (ctx : PCtx) :
+    ∃ ctx', p.extract car (.ok ctx) = .ok ctx' := by
+  rcases hp with h | h | h | h | h <;> subst h
+  · obtain ⟨c, hc, _⟩ := withSpan_ok ctx (fun _ => .ok (TraceContext.extract (car.get traceparentName) (car.get tracestateName))) _ rfl
+    exact ⟨c, hc⟩
+  · obtain ⟨c, hc, _⟩ := withSpan_ok ctx (fun _ => B3.extract (car.get Gen.b3CombinedHeader) (car.get Gen.b3TraceIdHeader)
+      (car.get Gen.b3SpanIdHeader) (car.get Gen.b3SampledHeader)) _ (C16.b3_extract_eq _ _ _ _)
+    exact ⟨c, hc⟩
+  · obtain ⟨c, hc, _⟩ := withSpan_ok ctx (fun _ => B3.extract (car.get Gen.b3CombinedHeader) (car.get Gen.b3TraceIdHeader)
+      (car.get Gen.b3SpanIdHeader) (car.get Gen.b3SampledHeader)) _ (C16.b3_extract_eq _ _ _ _)
+    exact ⟨c, hc⟩
+  · obtain ⟨c, hc, _⟩ := withSpan_ok ctx (fun _ => Jaeger.extract (car.get Gen.jaegerHeader)) _ (C16.jaeger_extract_eq _)
+    exact ⟨c, hc⟩
+  · exact ⟨_, baggage_extract_eq car ctx⟩
+
+/-- **a composite of any built-in propagators, in any order and multiplicity, never faults on any carrier**: the
+    out-of-bounds freedom of the parts carries over to the whole -/
+theorem composite_builtin_never_faults (ps : List (Propagator RCtx Carrier)) (hps : ∀ p ∈ ps, Builtin p)
+    (car : Carrier) (ctx : PCtx) : ∃ ctx', (composite emptyCtx ps).extract car (.ok ctx) = .ok ctx' := by
+  rw [composite_extract_eq_foldl]
+  induction ps generalizing ctx with
+  | nil => exact ⟨ctx, rfl⟩
+  | cons p t ih =>
+    obtain ⟨c1, h1⟩ := builtin_extract_ok p (hps p (by simp)) car ctx
+    simp only [List.foldl_cons]
+    rw [h1]
+    exact ih (fun q hq => hps q (by simp [hq])) c1
 
 /-! ## Non-vacuity -/
 
